@@ -102,6 +102,22 @@ pub fn run(a: &Args) {
         let im = crate::c01::far_match_image(&mut rng, 200, 32768, 0);
         files.push((im.name.clone(), im.file.clone()));
     }
+    // long runs of IDAT / fdAT chunks that carry no image data (legal): the number of steps a delivery needs must not matter
+    for (n_empty, at) in [(16usize, 0usize), (40, 1), (200, 1), (64, 2)] {
+        use crate::pngbuild::*;
+        let raw: Vec<u8> = (0..4 * 5).map(|i| if i % 5 == 0 { 0 } else { i as u8 }).collect();
+        let z = zlib_flate2(&raw, 6);
+        let cut = z.len() / 2;
+        let mut chunks = vec![ihdr(4, 4, 8, 0, 0)];
+        let parts = [&z[..cut], &z[cut..]];
+        for (pi, p) in parts.iter().enumerate() {
+            if at == pi || at == 2 { for _ in 0..n_empty { chunks.push(Chunk::new(b"IDAT", vec![])); } }
+            chunks.push(Chunk::new(b"IDAT", p.to_vec()));
+        }
+        if at == 2 { for _ in 0..n_empty { chunks.push(Chunk::new(b"IDAT", vec![])); } }
+        chunks.push(Chunk::new(b"IEND", vec![]));
+        files.push((format!("empty-idat-run-{}-{}", n_empty, at), assemble(&chunks)));
+    }
     let optsets = [Opts::default(), Opts { ignore_crc: true, ..Opts::default() }, Opts { skip_anc_crc: false, ignore_adler: false, ..Opts::default() }];
     for (fi, (name, bytes)) in files.iter().enumerate() {
         let opts = optsets[fi % optsets.len()];
